@@ -27,9 +27,10 @@ Record numops (T : Type) := {
   nabs : T -> T;
   nsign : T -> T;              (* numpy.sign on float64 *)
   nfinite : T -> bool;         (* math.isfinite *)
-  nzero : T }.                 (* the int 0 of the initial lists (behaves as +0.0) *)
+  nzero : T;                   (* the int 0 of the initial lists (behaves as +0.0) *)
+  nofZ : Z -> T }.             (* float(int): int operands of mixed int/float arithmetic *)
 Arguments nadd {T}. Arguments nsub {T}. Arguments nmul {T}. Arguments nlt {T}. Arguments neqb {T}.
-Arguments nabs {T}. Arguments nsign {T}. Arguments nfinite {T}. Arguments nzero {T}.
+Arguments nabs {T}. Arguments nsign {T}. Arguments nfinite {T}. Arguments nzero {T}. Arguments nofZ {T}.
 
 Record oracles (T : Type) := {
   pyfloat : list Z -> option T;     (* float(tok); None = ValueError *)
@@ -54,9 +55,20 @@ Record cfg (T : Type) := mk_cfg {
   c_sys_layout : list piece;
   c_commands : list (list Z * list Z);   (* System.commands *)
   c_bad : list Z; c_good_prefix : list Z;
-  c_timer : Z }.                          (* timer_value, in clock ticks *)
+  c_timer : Z;                            (* timer_value, in clock ticks *)
+  c_gap : T }.                            (* program_track_timegap *)
 Arguments c_servos {T}. Arguments c_table {T}. Arguments c_sys_layout {T}. Arguments c_commands {T}.
-Arguments c_bad {T}. Arguments c_good_prefix {T}. Arguments c_timer {T}. Arguments mk_cfg {T}.
+Arguments c_bad {T}. Arguments c_good_prefix {T}. Arguments c_timer {T}. Arguments c_gap {T}. Arguments mk_cfg {T}.
+
+(* program-track bookkeeping of a servo: what _programTrack maintains and get_status reads *)
+Record trk (T : Type) := mk_trk {
+  tk_id : option Z;            (* trajectory_id *)
+  tk_start : option T;         (* trajectory_start_time *)
+  tk_pid : option Z;           (* trajectory_point_id *)
+  tk_times : list T;           (* trajectory[0]: the times of the loaded points *)
+  tk_pt : bool }.              (* pt_table is non-empty (a spline has been computed) *)
+Arguments tk_id {T}. Arguments tk_start {T}. Arguments tk_pid {T}. Arguments tk_times {T}.
+Arguments tk_pt {T}. Arguments mk_trk {T}.
 
 Record servo (T : Type) := mk_servo {
   sv_mode : Z;                 (* operative_mode.value *)
@@ -66,9 +78,11 @@ Record servo (T : Type) := mk_servo {
   sv_offs : list T;
   sv_last : T;                 (* last_status_read *)
   sv_timer : option (Z * Z);   (* pending operative_mode_timer: (fire tick, mode to set) *)
-  sv_alias : bool }.           (* cmd_coords IS the list object coords (after a STOP/STOW refresh) *)
+  sv_alias : bool;             (* cmd_coords IS the list object coords (after a STOP/STOW refresh) *)
+  sv_trk : trk T }.
 Arguments sv_mode {T}. Arguments sv_future {T}. Arguments sv_coords {T}. Arguments sv_cmd {T}.
 Arguments sv_offs {T}. Arguments sv_last {T}. Arguments sv_timer {T}. Arguments sv_alias {T}.
+Arguments sv_trk {T}.
 Arguments mk_servo {T}.
 
 Record sys (T : Type) := mk_sys {
@@ -85,8 +99,8 @@ Record env (T : Type) := mk_env {
   e_tick : Z;                  (* virtual clock, integer ticks (timers) *)
   e_now : T;                   (* time.time() *)
   e_draws : list T;            (* random.uniform results, in call order *)
-  e_spl : list T;              (* splev(now, pt_table[i]) for i < DOF, or [] when the code does not call it *)
-  e_pt_ok : bool }.            (* the trajectory bookkeeping of _programTrack accepts the point *)
+  e_spl : list T;              (* splev(now, pt_table[i]) for i < DOF (read only when the model calls splev) *)
+  e_pt_ok : bool }.            (* scipy splrep returns (does not raise) on the trajectory of this command *)
 Arguments e_tick {T}. Arguments e_now {T}. Arguments e_draws {T}. Arguments e_spl {T}.
 Arguments e_pt_ok {T}. Arguments mk_env {T}.
 
@@ -131,7 +145,7 @@ Section Model.
 Context {T : Type} (ops : numops T) (orc : oracles T) (cf : cfg T).
 
 Definition init_servo (sc : sconf T) : servo T :=
-  let z := repeat (nzero ops) (sc_dof sc) in mk_servo 0 0 z z z (nzero ops) None false.
+  let z := repeat (nzero ops) (sc_dof sc) in mk_servo 0 0 z z z (nzero ops) None false (mk_trk None None None [] false).
 Definition init_sys : sys T := mk_sys [] 0 1 None None (map init_servo (c_servos cf)).
 
 (* index of a servo by name: `servo_id in self.servos` / self.servos.get(servo_id) *)
@@ -190,7 +204,7 @@ Fixpoint sc_loop (apply : bool) (sc : sconf T) (cmd offs : list T) (i : nat) (va
   end.
 
 Definition commit_coords (sv : servo T) (l : list T) (fm : Z) : servo T :=
-  mk_servo (sv_mode sv) fm (sv_coords sv) l (sv_offs sv) (sv_last sv) (sv_timer sv) false.
+  mk_servo (sv_mode sv) fm (sv_coords sv) l (sv_offs sv) (sv_last sv) (sv_timer sv) false (sv_trk sv).
 
 (* returns the servo and: Some true / Some false (the bool result), None = IndexError *)
 Definition set_coords (sc : sconf T) (sv : servo T) (vals : list (option T)) (fm : Z) (apply : bool)
@@ -203,7 +217,7 @@ Definition set_coords (sc : sconf T) (sv : servo T) (vals : list (option T)) (fm
 
 (* operative_mode_timer.cancel(); operative_mode.value = m *)
 Definition cancel_set_mode (sv : servo T) (m : Z) : servo T :=
-  mk_servo m (sv_future sv) (sv_coords sv) (sv_cmd sv) (sv_offs sv) (sv_last sv) None (sv_alias sv).
+  mk_servo m (sv_future sv) (sv_coords sv) (sv_cmd sv) (sv_offs sv) (sv_last sv) None (sv_alias sv) (sv_trk sv).
 
 (* ---- Servo.get_status: the motion step ------------------------------------------------------ *)
 Definition move1 (m dt coord target : T) : T :=
@@ -237,27 +251,53 @@ Fixpoint list_eq (a b : list T) : bool :=
   | _, _ => false
   end.
 
+(* `a >= b` of Python *)
+Definition nge (a b : T) : bool := nlt ops b a || neqb ops a b.
+
+Definition no_trk : trk T := mk_trk None None None [] false.
+
+(* get_status raises IndexError: operative mode 50, a spline table is loaded, but trajectory[0] is
+   empty (`self.trajectory[0][0]`) *)
+Definition gs_raises (sv : servo T) : bool :=
+  (sv_mode sv =? 50) && tk_pt (sv_trk sv) && match tk_times (sv_trk sv) with [] => true | _ => false end.
+
+(* the code calls splev (and moves): mode 50, table loaded, now >= first time *)
+Definition gs_tracks (e : env T) (sv : servo T) : bool :=
+  (sv_mode sv =? 50) && tk_pt (sv_trk sv) &&
+  match tk_times (sv_trk sv) with [] => false | first :: _ => nge (e_now e) first end.
+
+(* total: when [gs_raises] holds the result is the state the exception leaves behind
+   (last_status_read already updated) *)
 Definition get_status (sc : sconf T) (e : env T) (sv : servo T) : servo T :=
   let dt := nsub ops (e_now e) (sv_last sv) in
   let now := e_now e in
   let mode := sv_mode sv in
+  let tk := sv_trk sv in
   if mode =? 50 then
-    (* the code calls splev for all DOF axes or (no table yet / before the first point) not at all;
-       [e_spl] holds the DOF values in the first case *)
-    if (List.length (e_spl e) =? sc_dof sc)%nat && negb (sc_dof sc =? 0)%nat then
-      let cs := move_all dt (sc_delta sc) (sv_coords sv) (clamp_all (sc_min sc) (sc_max sc) (e_spl e)) in
-      (* in-place update of self.coords: an aliased cmd_coords follows *)
-      mk_servo mode (sv_future sv) cs (if sv_alias sv then cs else sv_cmd sv) (sv_offs sv) now
-               (sv_timer sv) (sv_alias sv)
-    else mk_servo mode (sv_future sv) (sv_coords sv) (sv_cmd sv) (sv_offs sv) now (sv_timer sv) (sv_alias sv)
+    match tk_pt tk, tk_times tk with
+    | true, first :: rest =>
+        let lastt := last rest first in
+        (* the spline values are the oracle inputs [e_spl]: used when exactly DOF are supplied *)
+        let moves := nge now first && (List.length (e_spl e) =? sc_dof sc)%nat && negb (sc_dof sc =? 0)%nat in
+        let cs := if moves
+                  then move_all dt (sc_delta sc) (sv_coords sv) (clamp_all (sc_min sc) (sc_max sc) (e_spl e))
+                  else sv_coords sv in
+        (* in-place update of self.coords: an aliased cmd_coords follows *)
+        let cmd := if moves && sv_alias sv then cs else sv_cmd sv in
+        (* now > last_time: the trajectory is over, everything is reset (the mode stays 50) *)
+        let tk' := if nlt ops lastt now then no_trk else tk in
+        mk_servo mode (sv_future sv) cs cmd (sv_offs sv) now (sv_timer sv) (sv_alias sv) tk'
+    | _, _ =>
+        mk_servo mode (sv_future sv) (sv_coords sv) (sv_cmd sv) (sv_offs sv) now (sv_timer sv) (sv_alias sv) tk
+    end
   else if (mode =? 20) || (mode =? 30) then
-    mk_servo mode (sv_future sv) (sv_coords sv) (sv_coords sv) (sv_offs sv) now (sv_timer sv) true
+    mk_servo mode (sv_future sv) (sv_coords sv) (sv_coords sv) (sv_offs sv) now (sv_timer sv) true tk
   else if negb (list_eq (sv_coords sv) (sv_cmd sv)) || negb (sv_future sv =? 0) then
     let cs := move_all dt (sc_delta sc) (sv_coords sv) (sv_cmd sv) in
     if list_eq cs (sv_cmd sv)
-    then mk_servo (sv_future sv) 0 cs (sv_cmd sv) (sv_offs sv) now (sv_timer sv) false
-    else mk_servo mode (sv_future sv) cs (sv_cmd sv) (sv_offs sv) now (sv_timer sv) false
-  else mk_servo mode (sv_future sv) (sv_coords sv) (sv_cmd sv) (sv_offs sv) now (sv_timer sv) (sv_alias sv).
+    then mk_servo (sv_future sv) 0 cs (sv_cmd sv) (sv_offs sv) now (sv_timer sv) false tk
+    else mk_servo mode (sv_future sv) cs (sv_cmd sv) (sv_offs sv) now (sv_timer sv) false tk
+  else mk_servo mode (sv_future sv) (sv_coords sv) (sv_cmd sv) (sv_offs sv) now (sv_timer sv) (sv_alias sv) tk.
 
 (* ---- rendering ------------------------------------------------------------------------------- *)
 (* pieces of a servo status line; [mode] is the operative mode read before the motion step,
@@ -319,6 +359,7 @@ Definition h_status (s : sys T) (e : env T) (args : list (list Z)) : hres :=
           | None => (s, RExc)
           | Some sv =>
               let sv' := get_status sc e sv in
+              if gs_raises sv then (set_servo s i sv', RExc) else
               (set_servo s i sv',
                good_opt (render_servo (sc_layout sc) (sv_mode sv) sv' (e_draws e)))
           end
@@ -392,7 +433,7 @@ Definition h_stow (s : sys T) (e : env T) (args : list (list Z)) : hres :=
                       let sv1 := cancel_set_mode sv 0 in
                       let sv2 := mk_servo (sv_mode sv1) (sv_future sv1) (sv_coords sv1) (sv_cmd sv1)
                                           (sv_offs sv1) (sv_last sv1)
-                                          (Some (e_tick e + c_timer cf, 20)) (sv_alias sv1) in
+                                          (Some (e_tick e + c_timer cf, 20)) (sv_alias sv1) (sv_trk sv1) in
                       (set_last (set_servo s i sv2) (e_now e), RGood [])
                   end
               | None =>
@@ -486,7 +527,7 @@ Definition h_offset (s : sys T) (e : env T) (args : list (list Z)) : hres :=
                   | None => (s, RExc)
                   | Some offs' =>
                       let sv' := mk_servo (sv_mode sv) (sv_future sv) (sv_coords sv) (sv_cmd sv) offs'
-                                          (sv_last sv) (sv_timer sv) (sv_alias sv) in
+                                          (sv_last sv) (sv_timer sv) (sv_alias sv) (sv_trk sv) in
                       (set_last (set_servo s i sv') (e_now e), RGood [])
                   end
               end
@@ -516,6 +557,74 @@ Fixpoint pt_coords (toks : list (list Z)) (offs : list T) : option (option (list
       end
   end.
 
+(* bisect.bisect_left on a sorted list (the times are sorted: consecutive point ids) *)
+Fixpoint bisect_left (l : list T) (x : T) : nat :=
+  match l with
+  | a :: r => if nlt ops a x then S (bisect_left r x) else 0%nat
+  | [] => 0%nat
+  end.
+
+(* [t0 - gap*20; ...; t0 - gap*1]: the 20 points put in front of the first one *)
+Fixpoint back_points (t0 gap : T) (n : nat) : list T :=
+  match n with
+  | O => []
+  | S k => nsub ops t0 (nmul ops gap (nofZ ops (Z.of_nat n))) :: back_points t0 gap k
+  end.
+
+Definition opt_z_eqb (a : Z) (b : option Z) : bool := match b with Some x => a =? x | None => false end.
+
+Inductive ptres :=
+| PtBad (tk : trk T)               (* OUTPUT:BAD, leaving this bookkeeping behind *)
+| PtGood (tk : trk T)
+| PtExc (tk : trk T).
+
+(* the `with servo.trajectory_lock:` block of _programTrack, on the times (the coordinate lists are
+   only read by splrep); [st] is the start-time token, [now] is time.time() *)
+Definition pt_stage1 (e : env T) (tk : trk T) (tid pid : Z) (st : list Z) : ptres + (option T * trk T) :=
+  let now := e_now e in
+  if zlist_eqb st [42] then                                         (* '*' *)
+    if negb (opt_z_eqb tid (tk_id tk)) then inl (PtBad tk)
+    else match tk_pid tk with
+         | None => inl (PtExc tk)                                    (* None + 1 *)
+         | Some p => if negb (pid =? p + 1) then inl (PtBad tk) else inr (tk_start tk, tk)
+         end
+  else match pyfloat orc st with
+       | None => inl (PtBad tk)
+       | Some t0 =>
+           if nlt ops t0 now then inl (PtBad tk)
+           else if negb (pid =? 0) then inl (PtBad tk)
+           else inr (Some t0, mk_trk (Some tid) (Some t0) (tk_pid tk) [] (tk_pt tk))
+       end.
+
+Definition pt_finish (e : env T) (start : T) (tk1 : trk T) (pid : Z) : ptres :=
+  let now := e_now e in
+  let ptime := nadd ops start (nmul ops (nofZ ops pid) (c_gap cf)) in
+  if nlt ops ptime now then PtBad tk1 else
+  let times1 := match tk_times tk1 with
+                | [t0] => if pid =? 1 then back_points t0 (c_gap cf) 20 ++ [t0] else [t0]
+                | l => l
+                end in
+  let times2 := times1 ++ [ptime] in
+  let times3 := skipn (bisect_left times2 (nsub ops now (nofZ ops 5))) times2 in
+  let tk2 := mk_trk (tk_id tk1) (tk_start tk1) (Some pid) times3 (tk_pt tk1) in
+  if (3 <? List.length times3)%nat
+  then if e_pt_ok e then PtGood (mk_trk (tk_id tk1) (tk_start tk1) (Some pid) times3 true)
+       else PtExc tk2                                               (* splrep raised *)
+  else PtGood tk2.
+
+(* the `with servo.trajectory_lock:` block of _programTrack, on the times (the coordinate lists are
+   only read by splrep); [st] is the start-time token *)
+Definition pt_book (e : env T) (tk : trk T) (tid pid : Z) (st : list Z) : ptres :=
+  match pt_stage1 e tk tid pid st with
+  | inl r => r
+  | inr (None, tk1) => PtExc tk1                                     (* None + float *)
+  | inr (Some start, tk1) => pt_finish e start tk1 pid
+  end.
+
+Definition set_trk (sv : servo T) (m : Z) (tk : trk T) : servo T :=
+  mk_servo m (sv_future sv) (sv_coords sv) (sv_cmd sv) (sv_offs sv) (sv_last sv) (sv_timer sv)
+           (sv_alias sv) tk.
+
 Definition h_programtrack (s : sys T) (e : env T) (args : list (list Z)) : hres :=
   match args with
   | [] => bad s
@@ -531,17 +640,16 @@ Definition h_programtrack (s : sys T) (e : env T) (args : list (list Z)) : hres 
               | None => (s, RExc)
               | Some sv =>
                   match pyint orc tid, pyint orc pid with
-                  | Some _, Some _ =>
+                  | Some tidz, Some pidz =>
                       match pt_coords toks (sv_offs sv) with
                       | None => (s, RExc)
                       | Some None => bad s
                       | Some (Some _) =>
-                          (* trajectory bookkeeping (start time, point ids, spline): oracle *)
-                          if e_pt_ok e
-                          then let sv' := mk_servo 50 (sv_future sv) (sv_coords sv) (sv_cmd sv) (sv_offs sv)
-                                                   (sv_last sv) (sv_timer sv) (sv_alias sv) in
-                               (set_last (set_servo s i sv') (e_now e), RGood [])
-                          else bad s
+                          match pt_book e (sv_trk sv) tidz pidz st with
+                          | PtBad tk => (set_servo s i (set_trk sv (sv_mode sv) tk), RBad)
+                          | PtExc tk => (set_servo s i (set_trk sv (sv_mode sv) tk), RExc)
+                          | PtGood tk => (set_last (set_servo s i (set_trk sv 50 tk)) (e_now e), RGood [])
+                          end
                       end
                   | _, _ => bad s
                   end
@@ -593,7 +701,7 @@ Definition fire_servo (tick : Z) (sv : servo T) : servo T :=
   match sv_timer sv with
   | Some (t, m) => if t <=? tick
                    then mk_servo m (sv_future sv) (sv_coords sv) (sv_cmd sv) (sv_offs sv) (sv_last sv) None
-                                 (sv_alias sv)
+                                 (sv_alias sv) (sv_trk sv)
                    else sv
   | None => sv
   end.
@@ -606,20 +714,21 @@ Definition fire (tick : Z) (s : sys T) : sys T :=
   | None => mk_sys (s_msg s) (s_conf s) (s_gcap s) None (s_last s) svs
   end.
 
-(* one iteration of System._update: every servo's get_status(now); [spls] = the spline values
-   splev returned for each servo (empty list: not called) *)
+(* one iteration of System._update: every servo's get_status(now) in order, up to the first one that
+   raises (the thread dies there); [spls] = the spline values splev returned for each servo *)
 Fixpoint refresh_all (e : env T) (scs : list (sconf T)) (svs : list (servo T)) (spls : list (list T))
-  : list (servo T) :=
+  : list (servo T) * bool :=
   match scs, svs with
   | sc :: scs', sv :: svs' =>
-      get_status sc (mk_env (e_tick e) (e_now e) [] (hd [] spls) false) sv
-      :: refresh_all e scs' svs' (tl spls)
-  | _, _ => svs
+      let sv' := get_status sc (mk_env (e_tick e) (e_now e) [] (hd [] spls) false) sv in
+      if gs_raises sv then (sv' :: svs', true) else
+      let '(r, x) := refresh_all e scs' svs' (tl spls) in (sv' :: r, x)
+  | _, _ => (svs, false)
   end.
 
-Definition refresh (e : env T) (spls : list (list T)) (s : sys T) : sys T :=
-  mk_sys (s_msg s) (s_conf s) (s_gcap s) (s_cover s) (s_last s)
-         (refresh_all e (c_servos cf) (s_servos s) spls).
+Definition refresh (e : env T) (spls : list (list T)) (s : sys T) : sys T * bool :=
+  let '(svs, x) := refresh_all e (c_servos cf) (s_servos s) spls in
+  (mk_sys (s_msg s) (s_conf s) (s_gcap s) (s_cover s) (s_last s) svs, x).
 
 (* ---- histories ---------------------------------------------------------------------------------------- *)
 Inductive event :=
@@ -633,7 +742,8 @@ Definition step (w : world) (ev : event) : world * outcome :=
   match ev with
   | EvEnv e => ((e, fire (e_tick e) (snd w)), OTrue)
   | EvByte b => let '(s', o) := parse (snd w) (fst w) b in ((fst w, s'), o)
-  | EvRefresh spls => ((fst w, refresh (fst w) spls (snd w)), OTrue)
+  (* whether the update thread raised is [snd (refresh ...)]; it is not a reply to any client *)
+  | EvRefresh spls => ((fst w, fst (refresh (fst w) spls (snd w))), OTrue)
   end.
 
 Fixpoint run (w : world) (evs : list event) : world * list outcome :=
